@@ -14,6 +14,9 @@ TagModes == {"skip", "wrap"}
 ToksWf    == {Tok("t", 1), Tok("oi", 3), Tok("ci", 4), Tok("op", 3), Tok("cp", 4)}
 ToksStyle == {Tok("t", 1), Tok("oi", 3), Tok("ci", 4)}                 \* style runs, two annotations (repair vs next span)
 ToksWfSc  == {Tok("t", 1), Tok("ob", 3), Tok("cb", 4), Tok("sc", 5)}      \* bold runs with self-closing elements (<br/>)
+ToksDel   == {Tok("t", 1), Tok("d", 1)}                                  \* the source lacks parts of the plain text
+ToksDelTag == {Tok("t", 1), Tok("d", 1), Tok("oi", 3), Tok("ci", 4)}      \* ... and has tags (never next to a deletion:
+                                                                         \*  the order of "-" and "+" in a diff script is the engine's choice)
 ToksText  == {Tok("t", 1), Tok("t", 2), Tok("w", 1), Tok("w", 2), Tok("oi", 3), Tok("ci", 4)}
 
 (* stack of open tags after a prefix (only called on prefixes that nest properly) *)
@@ -29,7 +32,10 @@ KeepsWf(t) == LET st == OpenStack(src, 1, <<>>) IN
 Init == /\ src = <<>> /\ hasSrc \in (IF WfOnly THEN {TRUE} ELSE BOOLEAN) /\ mode \in Modes
         /\ anns = <<>> /\ pc = "text" /\ k = 1 /\ lastEnd = 0 /\ out = <<>> /\ err = "none"
 AddTok == /\ pc = "text" /\ Len(src) < MaxToks
-          /\ \E t \in TokSet : (t.c = "w" => hasSrc) /\ (WfOnly => KeepsWf(t)) /\ src' = Append(src, t)
+          /\ \E t \in TokSet : /\ (t.c \in {"w", "d"} => hasSrc) /\ (WfOnly => KeepsWf(t))
+                               /\ (src # <<>> => LET p == src[Len(src)].c IN
+                                      ~(t.c = "d" /\ p \notin {"t", "d"}) /\ ~(p = "d" /\ t.c \notin {"t", "d"}))
+                               /\ src' = Append(src, t)
           /\ UNCHANGED <<hasSrc, mode, anns, pc, k, lastEnd, out, err>>
 TextDone == /\ pc = "text" /\ pc' = "anns" /\ (WfOnly => OpenStack(src, 1, <<>>) = <<>>)
             /\ UNCHANGED <<src, hasSrc, mode, anns, k, lastEnd, out, err>>
